@@ -458,21 +458,29 @@ def rule_panic(G, E, R):
     rule = "R05-panic"
     spec = os.path.join(os.path.dirname(os.path.dirname(os.path.abspath(__file__))), "spec", "parser_panics.json")
     with open(spec) as f:
-        allowed = {(a["function"], a["kind"]): a for a in _json.load(f)["allowed"]}
+        allowed = {(canon_fn(E, a["function"]), a["kind"]): a for a in _json.load(f)["allowed"]}
     seen = {}
     for i in sorted(G.reach):
         v = G.insts[i]
         if "mir" not in v:
             continue
         for k, w, c in panic_sites(v["mir"]):
-            seen.setdefault((G.name[i], k), []).append(w)
+            seen.setdefault((canon_fn(E, G.name[i]), k), []).append(w)
     R.floor(rule, "explicit panic sites reachable from the parser", len(seen), 8)
     guards = {}
+    if os.environ.get("VERIF_DUMP_PANIC_COUNTS"):
+        print("PANIC-COUNTS parser_panics " + _json.dumps({"%s|%s" % k_: len(set(v_)) for k_, v_ in seen.items()}))
+    verdicts = judge_panic_sites(E, allowed, {k_: set(v_) for k_, v_ in seen.items()})
     for (fn, kind), where in sorted(seen.items()):
         a = allowed.get((fn, kind))
         label = "%s site" % kind
-        if not a and moved_panic_reason(E, fn, kind, set(allowed), set(seen)):
-            R.ok(rule, fn, label + " (moved)", moved_panic_reason(E, fn, kind, set(allowed), set(seen)), sorted(set(where))[0])
+        st_, why_ = verdicts[(fn, kind)]
+        if st_ == "moved":
+            R.ok(rule, fn, label + " (moved)", why_, sorted(set(where))[0])
+            continue
+        if st_ == "grown":
+            R.violation(rule, fn, label + " (more than reviewed)", "%s: a new explicit panic appeared in a reviewed parser function "
+                        "(spec/parser_panics.json)" % why_, sorted(set(where))[-1])
             continue
         if not a:
             R.violation(rule, fn, label, "an explicit panic is reachable from the parser entry points and is not in the reviewed list "
